@@ -67,7 +67,7 @@ fn hslot(ctx: Ctx, h: u8) -> usize {
     ctx.th * SLOTS_PER_THREAD + (h as usize % SLOTS_PER_THREAD)
 }
 
-fn get_cont(c: u8) -> Option<Rc<Cont>> {
+pub fn get_cont(c: u8) -> Option<Rc<Cont>> {
     w(|w| w.conts.get(c as usize).and_then(|e| e.c.clone()))
 }
 
@@ -77,7 +77,7 @@ fn peek_cont_ptr(c: &Cont) -> usize {
 
 /// Runs a library call, catching panics: an injected user panic is expected and reported as
 /// `None`; any other panic is a violation (operations are total).
-fn guarded<R>(what: &str, f: impl FnOnce() -> R) -> Option<R> {
+pub fn guarded<R>(what: &str, f: impl FnOnce() -> R) -> Option<R> {
     w(|w| w.api_calls += 1);
     match catch_unwind(AssertUnwindSafe(f)) {
         Ok(r) => Some(r),
@@ -102,12 +102,12 @@ fn guarded<R>(what: &str, f: impl FnOnce() -> R) -> Option<R> {
     }
 }
 
-struct Rec {
-    inv: u64,
-    inv_clock: verif_rt::vclock::VClock,
+pub struct Rec {
+    pub inv: u64,
+    pub inv_clock: verif_rt::vclock::VClock,
 }
 
-fn rec_begin() -> Rec {
+pub fn rec_begin() -> Rec {
     Rec {
         inv: stamp(),
         inv_clock: rt::clock_of_current(),
@@ -115,7 +115,7 @@ fn rec_begin() -> Rec {
 }
 
 #[allow(clippy::too_many_arguments)]
-fn rec_end(ctx: Ctx, r: Rec, c: u8, kind: CallKind, arg: (u32, usize), exp_addr: usize, ret: (u32, usize), completed: bool) {
+pub fn rec_end(ctx: Ctx, r: Rec, c: u8, kind: CallKind, arg: (u32, usize), exp_addr: usize, ret: (u32, usize), completed: bool) {
     let resp = stamp();
     let resp_clock = rt::clock_of_current();
     let tid = rt::current();
@@ -140,7 +140,7 @@ fn rec_end(ctx: Ctx, r: Rec, c: u8, kind: CallKind, arg: (u32, usize), exp_addr:
     });
 }
 
-fn note_seen(ctx: Ctx, addr: usize) {
+pub fn note_seen(ctx: Ctx, addr: usize) {
     if addr != 0 {
         w(|w| {
             let v = &mut w.seen[ctx.th];
@@ -179,7 +179,7 @@ fn make_value<T: PtrT>(ctx: Ctx, v: V) -> T {
     }
 }
 
-fn next_payload() -> u64 {
+pub fn next_payload() -> u64 {
     w(|w| {
         w.payload_ctr += 1;
         1000 + w.payload_ctr
@@ -640,7 +640,8 @@ fn op_rcu(ctx: Ctx, c: u8, spec: RcuSpec, h: u8) {
                 if spec.panic_at != 0 && attempt == spec.panic_at {
                     std::panic::resume_unwind(Box::new(UserPanic("rcu closure")));
                 }
-                let new = T::fresh(in_val + 1);
+                let _ = in_val;
+                let new = T::fresh(next_payload());
                 last_out = (new.peek_uid(), new.addr());
                 produced.push(last_out.0);
                 new
@@ -1036,6 +1037,7 @@ pub fn setup_world(prog: &Program) {
         nw.writes_done = vec![0; n];
         nw.tls_regs = vec![0; n];
         nw.gen_set = vec![false; n];
+        nw.prog_wants_access = serde_json::to_string(prog).map(|t| t.contains("AccLoad")).unwrap_or(false);
         // Dropping the previous world releases pointers into the (already reset) arena only by
         // address: SimArc::drop would touch freed slots, so leak them instead.
         let old = std::mem::replace(&mut *wc.borrow_mut(), nw);
@@ -1140,6 +1142,11 @@ pub fn main_thread() {
 
 fn final_cleanup(ctx: Ctx, order: u8) {
     run_ledger("after all threads joined");
+    // caches and projection guards keep their container alive (like an Arc would): they go first
+    crate::extras::final_drop_extras(ctx);
+    if rt::is_aborting() {
+        return;
+    }
     let steps: [u8; 4] = match order % 4 {
         0 => [0, 1, 2, 3],
         1 => [3, 0, 1, 2],
@@ -1202,7 +1209,7 @@ fn final_cleanup(ctx: Ctx, order: u8) {
                     }
                 }
             }
-            _ => crate::extras::final_drop_extras(ctx),
+            _ => {}
         }
     }
     run_ledger("final");
@@ -1379,7 +1386,7 @@ pub fn run_ledger(when: &str) {
                 note_g(g);
             }
         }
-        crate::extras::extra_owners(w, &mut own);
+        crate::extras::extra_owners(w, &mut own, &mut null_guards);
     });
     if let Some(m) = guard_uid_mismatch {
         rt::fail("uaf", format!("{}: {}", when, m));
@@ -1482,26 +1489,32 @@ pub fn event_hook(id: u32, arg: usize) {
                 format!("thread {} claimed a node that thread {} still owns", me, p),
             );
         }
-    } else if id == probes::FAST_FIRST_READ {
-        // which object did the fast path read the pointer of?
-        let u = arena::slot_at(arg).map(|(_, uid, _)| uid).unwrap_or(0);
+    } else if id == probes::PAYALL_PAID_SLOT {
+        // a writer paid the debt in slot `arg`; which storage it works for follows
+        w(|w| w.last_paid_slot = arg);
+    } else if id == probes::PAID_STORAGE {
         w(|w| {
-            if w.first_read.len() <= me {
-                w.first_read.resize(me + 1, (0, 0));
-            }
-            w.first_read[me] = (arg, u);
+            let slot = w.last_paid_slot;
+            w.paid_by_storage.insert(slot, arg);
         });
-    } else if id == probes::FAST_CHANGED_PAID {
-        // "the debt was already paid by someone, so we are fine using the pointer": is the
-        // object now at that address still the one whose pointer was read?
-        let now = arena::slot_at(arg).map(|(_, uid, _)| uid).unwrap_or(0);
+    } else if id == probes::FAST_CHANGED_PAID || id == probes::FB_HELPED_AND_PAID {
+        // the reader found its (unconfirmed) debt in slot `arg` already paid; its storage follows
+        w(|w| w.reader_paid_slot = (arg, id as u32));
+    } else if id == probes::READER_STORAGE {
         w(|w| {
-            let (a, u) = w.first_read.get(me).copied().unwrap_or((0, 0));
-            if a == arg && u != now {
-                crate::marks::mark(format!(
-                    "aba-paid-debt: fast path read the pointer of an object, the address was reused for another object (uid {} -> {}), a writer paid the stale debt and the load returns the other object",
-                    u, now
-                ));
+            let (slot, which) = w.reader_paid_slot;
+            if let Some(payer_storage) = w.paid_by_storage.get(&slot).copied() {
+                if payer_storage != arg {
+                    if which as usize == probes::FAST_CHANGED_PAID {
+                        crate::marks::mark(
+                            "aba-paid-debt: the fast path's unconfirmed debt was paid by a writer of ANOTHER container (stale pointer whose address was reused); the load returns that other object".to_string(),
+                        );
+                    } else {
+                        crate::marks::mark(
+                            "aba-paid-debt: the fallback's unconfirmed debt was paid by a writer of ANOTHER container (stale pointer whose address was reused); the reader gives that count back with its own pointer type".to_string(),
+                        );
+                    }
+                }
             }
         });
     } else if id == probes::COOLDOWN_STARTED {
